@@ -125,6 +125,20 @@ func kubeAlphabet(_ int, path []Op) []Op {
 	return out
 }
 
+// kubeKnownStartup is the (listed) class of the start-up race: kubeBuilder's direct
+// Update(<own GET>) followed by the informer's initial OnAdd(<LIST>) of an object that lost
+// addresses in between — OnAdd unions, the vanished addresses stay published.
+const kubeKnownStartup = "kube:initial-add-after-direct-update"
+
+// runKube. The search keeps expanding a state whose only violation is a LISTED class (see
+// main.go/listedClasses), so this function judges on: while the start-up transient is active
+// (stale = the addresses the direct Update knew and the initial list did not), the published set
+// may be anything between the current addresses and current ∪ stale — still the known cause, known
+// key. An operation that by the statement re-establishes the view — OnUpdate(old,new) with a new
+// resourceVersion (=> addresses of new) or a direct Update(obj) (=> addresses of obj) — ends the
+// transient: equality is demanded again, under the key kube:stale-address-survives-update if
+// what is wrong is a leftover of the transient. OnAdd / OnDelete / a resync OnUpdate(cur,cur)
+// (same resourceVersion: the handler ignores it by design) do not claim to rebuild the set.
 func runKube(path []Op, log io.Writer) (string, *failure) {
 	var published []string
 	npub := 0
@@ -134,57 +148,90 @@ func runKube(path []Op, log io.Writer) (string, *failure) {
 	})
 	k := &kubeRef{}
 	gotBeforeStart := false
+	var direct []string // addresses handed over by the last direct Update before the informer started
+	var stale []string  // start-up transient: addresses that may linger until the view is re-established
+	var known *failure  // the transient is showing at the last step
 	for i, o := range path {
 		last := i == len(path)-1
 		old := *k
 		k.apply(o)
 		check := k.started
+		reestablish := false
 		switch o.K {
 		case "get":
 			h.Update(endpointsObj(k.set, k.layout, k.rv))
 			check = true
+			reestablish = true
 			if !k.started {
 				gotBeforeStart = true
+				direct = k.current()
 			}
 		case "start":
 			if k.exists {
 				h.OnAdd(endpointsObj(k.set, k.layout, k.rv), true)
 			}
+			if gotBeforeStart {
+				cur := map[string]bool{}
+				for _, a := range k.current() {
+					cur[a] = true
+				}
+				for _, a := range direct {
+					if !cur[a] {
+						stale = append(stale, a)
+					}
+				}
+			}
 		case "create":
 			h.OnAdd(endpointsObj(k.set, k.layout, k.rv), false)
 		case "modify":
 			h.OnUpdate(endpointsObj(old.set, old.layout, old.rv), endpointsObj(k.set, k.layout, k.rv))
+			reestablish = true
 		case "resync":
 			cur := endpointsObj(k.set, k.layout, k.rv)
 			h.OnUpdate(cur, endpointsObj(k.set, k.layout, k.rv))
 		case "delete":
 			h.OnDelete(endpointsObj(old.set, old.layout, old.rv))
 		}
+		hadStale := len(stale) > 0
+		if reestablish {
+			stale = nil
+		}
 		if log != nil {
 			judged := ""
 			if !check {
 				judged = "  [not judged: the handler has not been told yet]"
 			}
-			fmt.Fprintf(log, "  step %d %-40s current addresses=%s | last published=%s (handler set %v, %d publications)%s\n",
-				i+1, o.String(), show(k.current()), show(published), h.VDump(), npub, judged)
+			fmt.Fprintf(log, "  step %d %-40s current addresses=%s | last published=%s (handler set %v, %d publications, start-up leftovers allowed %s)%s\n",
+				i+1, o.String(), show(k.current()), show(published), h.VDump(), npub, show(stale), judged)
 		}
-		if check && (last || log != nil) {
-			if _, dup := asSet(published); dup {
-				return "", &failure{"kube:duplicate-address:" + o.K, fmt.Sprintf("published list %v contains an address twice", published)}
+		known = nil
+		if !check {
+			continue
+		}
+		var f *failure
+		if _, dup := asSet(published); dup {
+			f = &failure{"kube:duplicate-address:" + o.K, fmt.Sprintf("published list %v contains an address twice", published)}
+		} else if !sameSet(published, k.current()) {
+			upper, _ := asSet(append(append([]string{}, k.current()...), stale...))
+			switch {
+			case len(stale) > 0 && admissible(published, k.current(), upper):
+				// the known start-up transient, still showing
+				f = &failure{kubeKnownStartup, fmt.Sprintf("last published addresses %s != current endpoint addresses %s (leftover of the direct Update before the informer's initial add)", show(published), show(k.current()))}
+				known = f
+			case reestablish && hadStale:
+				f = &failure{"kube:stale-address-survives-update", fmt.Sprintf("%s rebuilds the view from its object, but last published addresses %s != current endpoint addresses %s: a leftover of the start-up race survives", o.K, show(published), show(k.current()))}
+			default:
+				f = &failure{"kube:" + o.K, fmt.Sprintf("last published addresses %s != current endpoint addresses %s", show(published), show(k.current()))}
 			}
-			if !sameSet(published, k.current()) {
-				class := "kube:" + o.K
-				if o.K == "start" && gotBeforeStart {
-					class = "kube:initial-add-after-direct-update"
-				}
-				return "", &failure{class, fmt.Sprintf("last published addresses %s != current endpoint addresses %s", show(published), show(k.current()))}
-			}
+		}
+		if f != nil && f != known && (last || log != nil) {
+			return "", f
 		}
 	}
 	pub := "none"
 	if npub > 0 {
 		pub = show(published)
 	}
-	key := fmt.Sprintf("h[%s]|e%v s%d l%d st%v g%v|p%s", strings.Join(h.VDump(), ","), k.exists, k.set, k.layout, k.started, gotBeforeStart, pub)
-	return key, nil
+	key := fmt.Sprintf("h[%s]|e%v s%d l%d st%v g%v|p%s|stale%s", strings.Join(h.VDump(), ","), k.exists, k.set, k.layout, k.started, gotBeforeStart, pub, show(stale))
+	return key, known
 }
